@@ -207,10 +207,10 @@ Fixpoint temps_ok (written : list positive) (es : list event) : bool :=
 Definition is_var (k : okind) : bool := match k with KVariable => true | _ => false end.
 Definition var_written (e : event) : bool := is_var e.(e_kind) && is_write e.(e_acc).
 
-(** frontend: variable assignment outside a sequential body *)
+(** a variable is assigned inside an always expression ("variable assignment only possible in
+    sequential contexts"; in a concurrent CONTEXT the ConvertInstance rule below fires instead) *)
 Definition front_ctx (c : context) : option reason :=
-  let conc_part := match c.(c_kind) with Concurrent => always_events c ++ c.(c_body) | Sequential => always_events c end in
-  if existsb var_written conc_part then Some RVarAssign else None.
+  if existsb var_written (always_events c) then Some RVarAssign else None.
 
 (** ConvertInstance.apply on one context *)
 Definition ci_ctx (m : discipline) (c : context) : option reason :=
@@ -234,19 +234,33 @@ Fixpoint first_reason {A} (f : A -> option reason) (l : list A) : option reason 
 
 (** ** the whole check *)
 
+(** order of the stages as observed on the real compiler: ConvertInstance per context, then
+    [check_usage] and the instance loop (EntityTemplate.__init__), and only afterwards the
+    "variable assignment only possible in sequential contexts" rule *)
 Definition check_with (m : discipline) (D : design) : verdict :=
   let cs := all_contexts D in
-  match first_reason front_ctx cs with
+  match first_reason (ci_ctx m) cs with
   | Some e => Reject e
   | None =>
-      match first_reason (ci_ctx m) cs with
-      | Some e => Reject e
-      | None =>
-          match run ustate0 (visits m 0 cs) with
-          | UErr e => Reject e
-          | UOk st => inst_loop m 0 (all_insts D) st.(written_in)
+      match run ustate0 (visits m 0 cs) with
+      | UErr e => Reject e
+      | UOk st =>
+          match inst_loop m 0 (all_insts D) st.(written_in) with
+          | Reject e => Reject e
+          | Accept =>
+              match first_reason front_ctx cs with
+              | Some e => Reject e
+              | None => Accept
+              end
           end
       end
+  end.
+
+Definition reason_eqb (a b : reason) : bool :=
+  match a, b with
+  | RInputWritten, RInputWritten | RMultiWrite, RMultiWrite | RMultiUse, RMultiUse
+  | RVarInConc, RVarInConc | RVarAssign, RVarAssign | RTempRead, RTempRead => true
+  | _, _ => false
   end.
 
 Definition check : design -> verdict := check_with Coded.
@@ -296,7 +310,7 @@ Definition conflict_freeb (D : design) : bool :=
 (** conditions of ConvertInstance that are not about conflicts between contexts; a
     conflict-free design that violates them is rejected for a different reason *)
 Definition locally_ok (m : discipline) (D : design) : bool :=
-  match first_reason front_ctx (all_contexts D), first_reason (ci_ctx m) (all_contexts D) with
+  match first_reason (ci_ctx m) (all_contexts D), first_reason front_ctx (all_contexts D) with
   | None, None => true
   | _, _ => false
   end.
